@@ -47,7 +47,8 @@ CLAIMS = {
              'peak-to-peak of column j of the RETURNED waveform, an explicit list is returned as given, the automatic list is non-empty, distinct, in range, lists the peak channel and has decreasing amplitudes. '
              '_get_template_sparse over the rank-2 theory with uninterpreted stored values: the listed channels are exactly the stored ones that are used (not -1) and carry signal (largest magnitude above 1e-6 of the '
              'template maximum), amplitudes decrease, amplitude j bounds every difference of two samples of returned column j and is attained there, the peak channel is listed with the largest amplitude, and a whitened '
-             'request returns the stored columns themselves. BOUNDED only: the numeric content of unwhitening/casts, accessors, templates without any signal (known finding), on exhaustive small templates and loaded datasets.',
+             'request returns the stored columns themselves; get_template takes the sparse route exactly when a column table exists and otherwise the dense route with all arguments forwarded (each '
+             'variant re-proves the postcondition of its route); the model queries get_cluster_spikes / get_template_spikes are listed under C07. BOUNDED only: the numeric content of unwhitening/casts, accessors, templates without any signal (known finding), on exhaustive small templates and loaded datasets.',
         note='Assumed: the 1-D NumPy theory of pyvc/npth.py (argsort, argmax, nonzero, intersect1d, gather, comparisons); squares abstracted by sq(t)>=0 and sq(t)=0 iff t=0; products of two reals by sign/scaling facts; '
              'no NaN in templates; pairwise distinct channel positions; "near" is DEFINED as membership in the result of get_closest_channels (A-DEF); a 2-D template is seen through its per-channel '
              'extremes: templates[i, ...], _unwhiten and astype return a template of the same width (values unspecified), t[:, ids] permutes the extremes, Bunch(**kw) is a record of the given values.',
@@ -66,7 +67,8 @@ CLAIMS = {
     'C07': dict(level='proof',
         text='PROVED for all arrays: _unique (strictly increasing, exactly the non-negative values present), _spikes_in_clusters (strictly increasing, exactly the spikes of requested clusters), _index_of '
              '(position of every element in a distinct lookup with entries >= -1, table indices in range), _spikes_per_cluster (the partition: one group per cluster id present and no other, keys strictly increasing, '
-             'each group strictly increasing and holding exactly the spike indices - or supplied increasing spike ids - carrying that id, every spike in the group of its id; dict keys pairwise distinct). '
+             'each group strictly increasing and holding exactly the spike indices - or supplied increasing spike ids - carrying that id, every spike in the group of its id; dict keys pairwise distinct), '
+             '_flatten_per_cluster (sorted union of the groups), TemplateModel.get_cluster_spikes / get_template_spikes (increasing, exactly the spikes carrying the id). '
              'BOUNDED only: _flatten_per_cluster, grouped_mean, the model queries and histograms, for all dtypes incl. unsigned, exhaustive small vectors plus random long ones.',
         note='Assumed: the 1-D NumPy theory (bincount as presence counts, nonzero, isin, mask selection, scatter/gather with wrap-around, stable argsort for kind=mergesort, diff, slice assignment); integer arrays are '
              'mathematical integers (A-NOOVF); a dict built by a comprehension with pairwise distinct integer keys (an obligation) and extended with a new key (an obligation) is an association list in insertion order; '
